@@ -687,6 +687,18 @@ def order_api(rng, name, same_short=False):
                                      "retryableStatusCodes": cs}})
     api.aux["retry-config"] = ("retry.json", json.dumps({"methodConfig": cfgs}, indent=1))
     tags.add("retry-config")
+    # mixins whose modules the API's own RPCs also use: the same import reaches one block in several spellings
+    if rng.random() < 0.8:
+        f.pb.dependency.extend(["google/cloud/location/locations.proto"] +
+                               ([] if "google/iam/v1/policy.proto" in f.pb.dependency else ["google/iam/v1/iam_policy.proto", "google/iam/v1/policy.proto"]))
+        api.dep_mods += ["google.cloud.location.locations_pb2", "google.iam.v1.iam_policy_pb2", "google.iam.v1.policy_pb2"]
+        svc.rpc("WhereIs", P + ".LinkRequest", ".google.cloud.location.Location", http={"get": "/v1/{name=links/*}:where"})
+        svc.rpc("WhoCan", P + ".LinkRequest", ".google.iam.v1.Policy", http={"get": "/v1/{name=links/*}:who"})
+        svc.rpc("LongLink", P + ".LinkRequest", ".google.longrunning.Operation", http={"post": "/v1/{name=links/*}:long"}, body="*",
+                lro=("LinkRequest", "LinkRequest"))
+        mix = rng.sample(["locations", "iam", "operations"], rng.randint(1, 3))
+        api.aux["service-yaml"] = ("svc.yaml", service_yaml(api, mixins=mix))
+        tags.update("mixin:" + m for m in mix)
     api.options = ["transport=grpc+rest", "metadata", "autogen-snippets"]
     return api
 
@@ -986,6 +998,121 @@ def routing_api(rng, name):
     # explicit routing wins over the HTTP rule
     s.rpc("Both", P + ".Req", P + ".Reply", http={"get": "/v1/{name=things/*}"}, routing=[("app_profile_id", "")])
     s.rpc("NoHeader", P + ".Req", P + ".Reply")
+    api.options = ["transport=grpc+rest", "autogen-snippets=false"]
+    api.info.update(pkg=pkg, version=ver, ns=["vp"], name=name, host=f"{name}.googleapis.com")
+    return api
+
+
+PAGE_REQ_SHAPES = {
+    # label: [(name, type)] size/token part of the request
+    "std": [("page_size", "int32"), ("page_token", "string")],
+    "size_int64": [("page_size", "int64"), ("page_token", "string")],
+    "size_uint32": [("page_size", "uint32"), ("page_token", "string")],
+    "size_sint32": [("page_size", "sint32"), ("page_token", "string")],
+    "size_fixed64": [("page_size", "fixed64"), ("page_token", "string")],
+    "legacy_int": [("max_results", "int32"), ("page_token", "string")],
+    "legacy_i32value": [("max_results", ".google.protobuf.Int32Value"), ("page_token", "string")],
+    "legacy_u32value": [("max_results", ".google.protobuf.UInt32Value"), ("page_token", "string")],
+    "legacy_string": [("max_results", "string"), ("page_token", "string")],
+    "legacy_i64value": [("max_results", ".google.protobuf.Int64Value"), ("page_token", "string")],
+    "size_string": [("page_size", "string"), ("page_token", "string")],
+    "size_double": [("page_size", "double"), ("page_token", "string")],
+    "size_bool": [("page_size", "bool"), ("page_token", "string")],
+    "no_token": [("page_size", "int32")],
+    "token_bytes": [("page_size", "int32"), ("page_token", "bytes")],
+    "token_int": [("page_size", "int32"), ("page_token", "int32")],
+    "no_size": [("page_token", "string")],
+    "token_first": [("page_token", "string"), ("page_size", "int32")],
+}
+PAGE_RESP_SHAPES = ["items_msg", "token_first", "two_repeated", "scalars", "map_items", "no_repeated", "no_token", "token_int",
+                    "items_other_file", "enums", "token_bytes", "extra_fields", "decl_order"]
+
+
+def paging_api(rng, name):
+    """Shapes around the AIP-4233 field rules (C07)."""
+    api = Api(name)
+    tags = api.tags
+    ver = "v1"
+    pkg = f"vp.{name}.{ver}"
+    P = "." + pkg
+    tf = File(f"vp/{name}/{ver}/{name}_items.proto", pkg, deps=list(STD_DEPS))
+    f = File(f"vp/{name}/{ver}/{name}.proto", pkg, deps=list(STD_DEPS) + [tf.pb.name])
+    api.add(tf)
+    api.add(f)
+    far = tf.message("FarItem")
+    far.field("uid", "string")
+    far.field("rank", "int32")
+    color = tf.enum("Color", "COLOR_UNSPECIFIED", "RED", "GREEN", "BLUE")
+    item = f.message("Item")
+    item.field("uid", "string")
+    item.field("weight", "double")
+    item.field("far", P + ".FarItem")
+    s = f.service("Pages", host=f"{name}.googleapis.com")
+    reqs = list(PAGE_REQ_SHAPES)
+    resps = list(PAGE_RESP_SHAPES)
+    combos = [("std", r) for r in resps] + [(q, "items_msg") for q in reqs if q != "std"]
+    combos += [(rng.choice(reqs), rng.choice(resps)) for _ in range(6)]
+    rng.shuffle(combos)
+    for i, (qs, rs) in enumerate(combos[:rng.randint(14, 22)]):
+        q = f.message(f"List{i}Request")
+        q.field("parent", "string")
+        fields = list(PAGE_REQ_SHAPES[qs])
+        extra = [("filter", "string"), ("order_by", "string"), ("view", color), ("deep", P + ".Item")]
+        for n_, t_ in extra[:rng.randint(1, 4)]:
+            q.field(n_, t_)
+        for n_, t_ in fields:
+            q.field(n_, t_)
+        o = f.message(f"List{i}Response")
+        if rs == "items_msg":
+            o.field("items", P + ".Item", repeated=True)
+            o.field("next_page_token", "string")
+        elif rs == "token_first":
+            o.field("next_page_token", "string")
+            o.field("total_size", "int32")
+            o.field("items", P + ".Item", repeated=True)
+        elif rs == "two_repeated":
+            o.field("unreachable", "string", repeated=True)
+            o.field("items", P + ".Item", repeated=True)
+            o.field("next_page_token", "string")
+        elif rs == "scalars":
+            o.field("names", "string", repeated=True)
+            o.field("next_page_token", "string")
+        elif rs == "map_items":
+            o.map("items", "string", P + ".Item")
+            o.field("next_page_token", "string")
+        elif rs == "no_repeated":
+            o.field("item", P + ".Item")
+            o.field("next_page_token", "string")
+        elif rs == "no_token":
+            o.field("items", P + ".Item", repeated=True)
+        elif rs == "token_int":
+            o.field("items", P + ".Item", repeated=True)
+            o.field("next_page_token", "int64")
+        elif rs == "token_bytes":
+            o.field("items", P + ".Item", repeated=True)
+            o.field("next_page_token", "bytes")
+        elif rs == "items_other_file":
+            o.field("far_items", P + ".FarItem", repeated=True)
+            o.field("next_page_token", "string")
+        elif rs == "enums":
+            o.field("colors", color, repeated=True)
+            o.field("next_page_token", "string")
+        elif rs == "decl_order":
+            # order of appearance differs from tag order: "first" = first to appear in the message
+            o.field("items", P + ".Item", number=3, repeated=True)
+            o.field("next_page_token", "string", number=2)
+            o.field("unreachable", "string", number=1, repeated=True)
+        elif rs == "extra_fields":
+            o.field("etag", "string")
+            o.field("items", P + ".Item", repeated=True)
+            o.field("next_page_token", "string")
+            o.field("total_size", "int32")
+            o.field("more", P + ".FarItem", repeated=True)
+        s.rpc(f"List{i}", P + f".List{i}Request", P + f".List{i}Response",
+              http={"get": f"/v1/{{parent=projects/*}}/items{i}"})
+        tags.add("req:" + qs)
+        tags.add("resp:" + rs)
+        api.info.setdefault("shapes", {})[f"List{i}"] = [qs, rs]
     api.options = ["transport=grpc+rest", "autogen-snippets=false"]
     api.info.update(pkg=pkg, version=ver, ns=["vp"], name=name, host=f"{name}.googleapis.com")
     return api
